@@ -13,6 +13,7 @@ PROP = {
              "byte-level mutations of valid documents. A case is non-trivial when the document contains the last segment of one of its "
              "exclusions at two or more different cursors; distinct = distinct canonical JSON of (document text(s), exclusion list)"),
     "assumptions": [
+        "the gateway's log level (LOG_LEVEL: off in three cases of eight, else error / info / debug / trace; what is logged is thrown away, what a log statement does to build its arguments happens) is a generated part of every case of TestHARCollectorBodies and TestHARGeneratorPluginBodies: no answer may depend on it; a failing case reports its level",
         "unit TestHARGeneratorPluginOverlapped: two transactions of two diagnoses with different obfuscation settings overlap on the one plugin instance - the injected hasher stops transaction A at its 1st-4th hash computation (headers, URL and query come before the bodies), B runs completely, A goes on; each output is judged against its own exclusion lists",
         "keys of generated documents contain no '.', '[' or ']' (the cursor notation cannot express them) and are unique per object",
         "numbers are finite float64 values; nesting depth <= 64; no lone surrogate escapes (no canonical form exists for them)",
